@@ -25,6 +25,11 @@ fn main() {
         Some("search") => search::run(&args[2..]),
         Some("standin") => match args.get(2).map(|s| s.as_str()) {
             Some("triples") => standin::triples(args.get(3).and_then(|s| s.parse().ok()).unwrap_or(0)),
+            Some("objcache") => standin::objcache(args.get(3).and_then(|s| s.parse().ok()).unwrap_or(0)),
+            // the two finders below are complete differential checks of functions that are not under contract; as
+            // stand-ins their result is marked bounded
+            Some("ser26") => standin::mark_bounded(ser26_find::search(args.get(3).and_then(|s| s.parse().ok()).unwrap_or(0)), "trees x levels (varint-width boundaries, shared sub-trees, spines, 300 random DAGs), all short instruction streams, 40 mutations of each small blob, 20000 random bodies"),
+            Some("brlimit") => standin::mark_bounded(serde_find::limit_search(args.get(3).and_then(|s| s.parse().ok()).unwrap_or(0)), "60 random trees x every limit around every byte position (small outputs: all limits) plus five huge limits"),
             _ => "{\"error\":\"unknown stand-in\"}".to_string(),
         },
         Some("rerun") => search::rerun(args.get(2).map(|s| s.as_str()).unwrap_or("{}")),
